@@ -29,3 +29,10 @@ func (l *QueueBlockingLimiter) VerifOrdering() QueueOrdering {
 	defer l.backlog.mu.RUnlock()
 	return l.backlog.ordering
 }
+
+// VerifWindow returns the live sample window: sample count, candidate RTT, max in-flight and drop flag.
+func (l *DefaultLimiter) VerifWindow() (count int, minRTT int64, maxInFlight int, didDrop bool) {
+	l.mu.RLock()
+	defer l.mu.RUnlock()
+	return l.sample.SampleCount(), l.sample.CandidateRTTNanoseconds(), l.sample.MaxInFlight(), l.sample.DidDrop()
+}
